@@ -35,7 +35,7 @@ Classes == {"add_inf_inf", "add_inf_p", "add_p_inf", "add_p_p", "add_p_negp", "a
             "tbl_huge", "tbl_odd", "tbl_row", "bm_single_byte", "bm_zero_nibble", "bm_edge", "bm_priv", "bm_priv_after_derive", "bm_recycled",
             "dec_ok_cmp", "dec_ok_unc", "dec_ok_inf", "dec_bad_len", "dec_bad_prefix", "dec_noncanon_x", "dec_noncanon_y",
             "dec_offcurve", "dec_nonresidue", "dec_hybrid", "dec_recv_uninit", "dec_recv_kept", "dec_fresh", "coords_ok", "coords_bad",
-            "rec_ok_low", "rec_ok_high", "rec_overflow", "rec_bad_id", "rec_nonresidue",
+            "rec_ok_low", "rec_ok_high", "rec_overflow", "rec_overflow_low_limbs_pass", "rec_bad_id", "rec_nonresidue",
             "msm_len0", "msm_len1", "msm_len2", "msm_len3plus", "msm_long", "msm_zero_scalar", "msm_inf_point", "msm_dup",
             "msm_inverse", "msm_alias", "msm_alias_far", "msm_mismatch", "msm_cancel", "dsm", "dsm_only_base", "dsm_only_var", "dsm_cancel", "dsm_window_meet", "mul_seq", "life_step", "life_reject", "life_inf", "life_ctrl"}
 
@@ -212,6 +212,7 @@ Verdict(ev) ==
          << IF d[1] = "ok" THEN ev.ok /\ ~ev.retnil /\ ev.out = EncUncompressedH(d[2]) ELSE ~ev.ok /\ ev.retnil,
             (IF d[1] = "ok" /\ ev.id < 2 THEN {"rec_ok_low"} ELSE {}) \cup (IF d[1] = "ok" /\ ev.id >= 2 THEN {"rec_ok_high"} ELSE {})
             \cup (IF ev.id \in {2, 3} /\ ~((xs ++ N) \prec P) THEN {"rec_overflow"} ELSE {})
+            \cup (IF ev.id \in {2, 3} /\ ~((xs ++ N) \prec P) /\ ((xs %% Pow2(128)) \prec (P -- N)) THEN {"rec_overflow_low_limbs_pass"} ELSE {})
             \cup (IF ev.id >= 4 THEN {"rec_bad_id"} ELSE {})
             \cup (IF ev.id < 2 /\ d[1] = "err" THEN {"rec_nonresidue"} ELSE {}) >>
     [] ev.ev = "s1.Split" ->
